@@ -180,7 +180,13 @@ def replay(path):
     with open(path) as f:
         r = json.load(f)
     o = r["origin"]
-    res = run(o["cmd"], env=o.get("env"))
+    cmd = list(o["cmd"])
+    # harness executables live in /verif/build/<variant>-<treehash>/: re-point to the build of the CURRENT tree (prepare() relinked it)
+    m = re.match(r"^(.*/build/)([A-Za-z0-9_]+)-[0-9a-f]{16}/(.+)$", cmd[0])
+    if m:
+        from vf import build
+        cmd[0] = os.path.join(build.build(m.group(2)), m.group(3))
+    res = run(cmd, env=o.get("env"))
     hit = [f for f in res.fails if f[0] == r["key"]]
     for k, d, _ in res.fails[:10]:
         print("  fail: %s | %s" % (k, d[:600]))
